@@ -182,7 +182,7 @@ func (s *c20State) execTx(line string, f []string) string {
 			r.Hit("ante/wire-encode-failed")
 		}
 	}
-	r.Hit("ante/obs/" + strings.Join(strings.Fields(obs)[:min(2, len(strings.Fields(obs)))], "-"))
+	r.Hit("ante/obs/" + strings.Join(strings.Fields(obs)[:c20min(2, len(strings.Fields(obs)))], "-"))
 	r.Class("tx/"+c20Hash(line), true)
 	s.seq = append(s.seq, "tx:"+obs)
 	s.nontr = true
@@ -266,7 +266,7 @@ func (s *c20State) execWrappers(line string) string {
 	return strings.Join(names, ",")
 }
 
-func min(a, b int) int {
+func c20min(a, b int) int {
 	if a < b {
 		return a
 	}
@@ -281,7 +281,7 @@ var (
 	c20Disabled = []string{"X", "U", "V1", "V2", "V3"}
 )
 
-func pick(r *Rng, xs []string) string { return xs[r.Intn(len(xs))] }
+func c20pick(r *Rng, xs []string) string { return xs[r.Intn(len(xs))] }
 
 func leaf(ty string) *c20Node      { return &c20Node{ty: ty, auth: "-"} }
 func grantOf(auth string) *c20Node { return &c20Node{ty: "R", auth: auth} }
@@ -292,9 +292,9 @@ func wrap(ty string, kids ...*c20Node) *c20Node {
 func c20Shape(r *Rng, depth, limit int) *c20Node {
 	if depth >= limit || r.Chance(22) {
 		if r.Chance(15) {
-			return grantOf(pick(r, []string{"S", "D", "E", "G", "Z"}))
+			return grantOf(c20pick(r, []string{"S", "D", "E", "G", "Z"}))
 		}
-		return leaf(pick(r, c20Benign))
+		return leaf(c20pick(r, c20Benign))
 	}
 	n := 1 + r.Intn(2)
 	switch x := r.Intn(20); x {
@@ -303,7 +303,7 @@ func c20Shape(r *Rng, depth, limit int) *c20Node {
 	case 1:
 		n = 3
 	}
-	w := wrap(pick(r, c20Wrappers))
+	w := wrap(c20pick(r, c20Wrappers))
 	for i := 0; i < n; i++ {
 		w.kids = append(w.kids, c20Shape(r, depth+1, limit))
 	}
@@ -323,9 +323,9 @@ func c20Leaves(n *c20Node, out *[]*c20Node) {
 func c20Disable(r *Rng, n *c20Node) {
 	n.kids, n.bad = nil, false
 	if r.Chance(25) {
-		n.ty, n.auth = "R", pick(r, c20Disabled)
+		n.ty, n.auth = "R", c20pick(r, c20Disabled)
 	} else {
-		n.ty, n.auth = pick(r, c20Disabled), "-"
+		n.ty, n.auth = c20pick(r, c20Disabled), "-"
 	}
 }
 
@@ -368,7 +368,7 @@ func c20RandomTx(r *Rng) []*c20Node {
 			if n.ty == "E" || n.ty == "G" || n.ty == "P" || n.ty == "R" {
 				n.bad = true
 			} else {
-				n.ty, n.auth, n.bad = "R", pick(r, []string{"S", "U", "V1", "Z"}), true
+				n.ty, n.auth, n.bad = "R", c20pick(r, []string{"S", "U", "V1", "Z"}), true
 			}
 		}
 		if r.Bool() {
